@@ -43,4 +43,11 @@ PROPS = {
         "modelled": EXTERNAL,
         "assumptions": ["arguments are live handles"],
     },
+    "C18": {
+        "suites": [("fws", 1500, 20000), ("forest", 300, 6000)],
+        "proved_scope": "for every forest with the C04 invariant in which consolidation has never been off and every live start node: the collected list and the removed handles are exactly the specification's set (whitespace-only text, no sibling text with other content, innermost xml:space not preserve), the subtree left is specStrip of the subtree (C18_exact); values, parents, document order of all other nodes, other trees, and the invariant are kept (C18_frame); a second application is the identity (C18_idem); no node is collected twice, every remove of the loop is a plain remove_subtree (no consolidation), nodes still to be removed are untouched (C18_safe). Obligations: the extracted whitespace characters are the four XML ones and the model and the specification test exactly them; the extracted keyword is the specification's. Closed counterexample for the boundary (consolidation has been off): C18_adjacent_text_counterexample",
+        "not_proved": "the case consolidation has been off (adjacent text nodes): the statement holds there except for a text start node between two text nodes (observed on model and crate, exhaustively for <= 4 children), not proved",
+        "modelled": EXTERNAL,
+        "assumptions": ["the start node is live", "Forest.Inv holds (C04; preservation by every operation is C04's obligation)", "name id 0 is xml:space (Xot::new registers it first; checked by the harness vocabulary)"],
+    },
 }
